@@ -290,6 +290,7 @@ class Sim:
         self.stalls = 0
         self.in_pred = False
         self.wake_preds = {}
+        self._just_woken = None
         self.parks = 0
 
     # ---- sequence numbers -------------------------------------------------
@@ -408,6 +409,8 @@ class Sim:
                         del self.wake_preds[t.tid]
                         t.state = RUNNABLE
                         out.append(t)
+                        # the state it was waiting for has just been reached
+                        self._just_woken = t
         return out
 
     def park_at_next_point(self, pred, max_steps, skip=0):
@@ -454,6 +457,17 @@ class Sim:
         else:
             options = runnable
             cur_in = False
+        jw = self._just_woken
+        if jw is not None:
+            # a state-triggered action: a coin decides whether the thread that
+            # waited for this very state acts on it at once (before anybody
+            # moves on) or competes like everybody else
+            self._just_woken = None
+            if jw in runnable and jw is not cur:
+                k = self.chooser.pick(2, 'wake')
+                self.trace.append(k)
+                if k:
+                    return jw
         k = self.chooser.pick_thread(self, options, cur_in)
         self.trace.append(k)
         return options[k]
